@@ -83,6 +83,8 @@ def to_model_op(op):
         pairs = [tuple(p) for p in op[1]]
         if len(op) > 2 and op[2] in ('dict', 'kw'):
             pairs = list(dict(pairs).items())
+        if len(op) > 2 and op[2] == 'pairs+kw':
+            pairs = pairs[:1] + list(dict(pairs[1:]).items())
         return ('update', pairs)
     if name == 'eq':
         return ('eq', [tuple(p) for p in op[1]])
@@ -125,6 +127,9 @@ def make_do_op(cache):
                 return cache.update(dict(pairs))
             if shape == 'kw':
                 return cache.update((), **dict(pairs))
+            if shape == 'pairs+kw':
+                # one call carrying a positional argument AND keyword items: still one operation
+                return cache.update(pairs[:1], **dict(pairs[1:]))
             if shape == 'ior':
                 c2 = cache
                 c2 |= pairs
@@ -370,7 +375,7 @@ def gen_case(r, ctx):
                 ops.append(['pop', k, v] if r.random() < 0.5 else ['pop', k])
             elif kind == 'update':
                 ops.append(['update', [[r.choice(keys), v * 100 + j] for j in range(r.randint(1, 3))],
-                            r.choice(['pairs', 'pairs', 'dict', 'kw', 'ior'])])
+                            r.choice(['pairs', 'pairs', 'dict', 'kw', 'ior', 'pairs+kw'])])
             elif kind == 'eq':
                 ops.append(['eq', [[kk, r.randint(0, 3)] for kk in r.sample(keys, r.randint(0, min(ms, nkeys)))]])
             else:
@@ -470,6 +475,12 @@ def directed_cases():
                      (['update', [['x', 1], ['a', 2]]], ['update', [['a', 3], ['x', 4]]])):
             out.append({'cls': cls, 'max_size': 2, 'on_miss': False, 'prefill': [['a', 0], ['b', 1]], 'small': True,
                         'programs': [[a, ['getitem', 'a']], [b]]})
+        # one update() call with a positional argument and keyword items against a thread reading both keys
+        for ms in (2, 3):
+            out.append({'cls': cls, 'max_size': ms, 'on_miss': False, 'prefill': [['a', 0]], 'small': True,
+                        'programs': [[['update', [['x', 1], ['y', 2]], 'pairs+kw']], [['get', 'y', None], ['get', 'x', None]]]})
+            out.append({'cls': cls, 'max_size': ms, 'on_miss': False, 'prefill': [['a', 0]], 'small': True,
+                        'programs': [[['update', [['x', 1], ['y', 2]], 'pairs+kw']], [['set', 'c', 5]]]})
         # a lookup that misses and computes its value through on_miss, against a writer of the same key
         for look in (['getitem', 'x'], ['get', 'x', None], ['setdefault', 'x', 7]):
             for other in (['set', 'x', 5], ['getitem', 'x']):
